@@ -56,13 +56,15 @@ def run(ctx):
              "EnablePaste", "EnableFocus", "SetTitle", "SetClipboard", "Beep", "SetSize", "CanDisplay", "RegisterRuneFallback",
              "UnregisterRuneFallback", "LockRegion", "Colors", "HasKey", "HasMouse", "CharacterSet", "PostEvent", "HasPendingEvent"]
     corepairs = ",".join("%s:%s" % (a, b) for i, a in enumerate(order) for b in order[i:] if a in core and b in core)
-    plans = [("UTF-8", 3 if q else 1, ""), ("ISO8859-1", 1, corepairs)] + ([] if q else [("ISO8859-1", 1, ""), ("US-ASCII", 1, corepairs)])
-    for charset, stride, pairs in plans:
+    plans = [("tty", "UTF-8", 3 if q else 1, ""), ("tty", "ISO8859-1", 1, corepairs)] \
+        + ([] if q else [("tty", "ISO8859-1", 1, ""), ("tty", "US-ASCII", 1, corepairs)]) \
+        + [("sim", "ISO8859-1", 1, "")] + ([] if q else [("sim", "UTF-8", 1, "")])
+    for kind, charset, stride, pairs in plans:
         start = 0
         while True:
             tf2 = ctx.work + "/race.ndjson"
-            s2, _ = ctx.run_vh(["race", "--mode", "race", "--iters", 25 if q else 150, "--seed", ctx.seed, "--start", start,
-                                "--stride", stride, "--charset", charset, "--pairs", pairs, "--out", tf2],
+            s2, _ = ctx.run_vh(["race", "--mode", "race", "--iters", (50 if kind == "sim" else 25) if q else 150, "--seed", ctx.seed, "--start", start,
+                                "--stride", stride, "--charset", charset, "--pairs", pairs, "--screen", kind, "--out", tf2],
                                timeout=3000, env={"GORACE": "halt_on_error=0"}, binary=rb, check=False)
             err = s2.get("_stderr", "")
             extra += parse_races(err)
@@ -92,4 +94,5 @@ def run(ctx):
                         "Touches(m) in ScreenLock.tla lists which methods must hold the screen lock"]
     ctx.finish("other",
                rule="every Screen method called on three terminals with lock/unlock and Write events; all unordered pairs of 26 "
-                    "methods (every 3rd in the quick tier) run concurrently with input and resize traffic under -race")
+                    "methods (every 3rd in the quick tier) run concurrently with input and resize traffic under -race; "
+                    "the same on a SimulationScreen with its five own calls added (31 methods, all pairs)")
